@@ -15,17 +15,19 @@ RULE = {"C09": "generated owner classes with 1-6 tunables (defaults of every sup
                "NetworkTables; distinct = hash of (definition, history)."}
 REQUIRED = {"C09": {"type:boolean": 50, "type:int": 50, "type:double": 50, "type:string": 50, "type:raw": 20, "type:struct:Rotation2d": 20,
                     "type:boolean[]": 20, "type:int[]": 20, "type:double[]": 20, "type:string[]": 20, "type:struct:Rotation2d[]": 10,
-                    "empty-hinted": 30, "writeDefault-true-overwrites": 50, "writeDefault-false-preserves": 50, "writeDefault-false-preserves-falsy": 10, "subtable": 100, "redefines-inherited-tunable": 30,
+                    "empty-hinted": 30, "writeDefault-true-overwrites": 50, "writeDefault-false-preserves": 50, "writeDefault-false-preserves-falsy": 10, "subtable": 100, "redefines-inherited-tunable": 30, "base-class-instance-bound-first": 30,
                     "owner:components": 100, "owner:autonomous": 50, "owner:root": 50, "via-magicrobot": 30,
                     "py-read-after-nt-write": 500, "nt-read-after-py-write": 500, "two-instances-independent": 100}}
 ASSUMPTIONS = {"C09": ["values written are always of the topic's own type (cross-type writes are rejected by NetworkTables itself)",
                        "local NetworkTables accepts writes with equal timestamps (clock paused)"]}
 
 KINDS = ["bool", "int", "float", "str", "bytes", "rot", "bool[]", "int[]", "float[]", "str[]", "rot[]",
-         "empty:int", "empty:float", "empty:str", "empty:bool"]
+         "empty:int", "empty:float", "empty:str", "empty:bool", "hintfloat", "hintfloat[]"]
 TYPE_STR = {"bool": "boolean", "int": "int", "float": "double", "str": "string", "bytes": "raw", "rot": "struct:Rotation2d",
             "bool[]": "boolean[]", "int[]": "int[]", "float[]": "double[]", "str[]": "string[]", "rot[]": "struct:Rotation2d[]",
-            "empty:int": "int[]", "empty:float": "double[]", "empty:str": "string[]", "empty:bool": "boolean[]"}
+            "empty:int": "int[]", "empty:float": "double[]", "empty:str": "string[]", "empty:bool": "boolean[]",
+            # a type hint given together with a non-empty default of another (int) type: the hint is what was asked for
+            "hintfloat": "double", "hintfloat[]": "double[]"}
 
 
 def shards(pid, tier, seed):
@@ -40,6 +42,10 @@ def value_of(kind, i):
     base = kind.split(":")[1] + "[]" if kind.startswith("empty:") else kind
     if kind.startswith("empty:") and i == 0:
         return []
+    if kind == "hintfloat":
+        return 0 if i == 0 else i * 0.5 + 0.25          # int default, float values afterwards
+    if kind == "hintfloat[]":
+        return [0, 1] if i == 0 else [i * 0.5, 2.25][: 1 + i % 2]
     if base == "bool":
         return i % 2 == 1
     if base == "int":
@@ -73,6 +79,7 @@ FALSY = {"bool": False, "int": 0, "float": 0.0, "str": "", "bytes": b"", "bool[]
 def pre_value(t, ii):
     """Pre-existing topic value of tunable t for instance ii (sometimes a falsy one: 0, '', [] ... must be preserved too)."""
     base = t["kind"].split(":")[1] + "[]" if t["kind"].startswith("empty:") else t["kind"]
+    base = {"hintfloat": "float", "hintfloat[]": "float[]"}.get(base, base)
     if t.get("pre_falsy") and base in FALSY and norm(FALSY[base]) != norm(value_of(t["kind"], 0)):
         return FALSY[base]
     return value_of(t["kind"], 1000 + ii)
@@ -81,6 +88,8 @@ def pre_value(t, ii):
 def norm(v):
     if isinstance(v, (list, tuple)):
         return [norm(x) for x in v]
+    if isinstance(v, int) and not isinstance(v, bool):
+        return float(v) if False else v
     return v
 
 
@@ -120,7 +129,7 @@ def gen_case(rng, uid):
             ops.append([k, i, t])
         if rng.random() < 0.2:
             ops.append(["adv", rng.choice([0, 1, 20000])])
-    return {"uid": uid, "owner": owner, "tunables": tun, "instances": instances, "ops": ops}
+    return {"uid": uid, "owner": owner, "tunables": tun, "instances": instances, "ops": ops, "base_instance_first": rng.random() < 0.3}
 
 
 def build_class(case, base=None):
@@ -130,13 +139,15 @@ def build_class(case, base=None):
     elem = {"int": int, "float": float, "str": str, "bool": bool}
     ns = {"tunable": tunable, "Sequence": Sequence, "ClassVar": ClassVar, "elem": elem, "Base": base or object}
     # tunables that the owner class inherits and redefines (other default, same kind): the redefinition counts
-    inh = [t for t in case["tunables"] if t.get("overrides_inherited") and not t["kind"].startswith("empty:")]
+    inh = [t for t in case["tunables"] if t.get("overrides_inherited") and not t["kind"].startswith(("empty:", "hintfloat"))]
     lines = []
-    if inh:
+    if inh or case.get("base_instance_first"):
         lines.append("class Mid(Base):")
+        lines.append(f"    basetun{case['uid']} = tunable(5)")
         for t in inh:
             ns["b_" + t["attr"]] = value_of(t["kind"], 77)
             lines.append(f"    {t['attr']} = tunable(b_{t['attr']}, writeDefault={not t['writeDefault']!r})")
+        lines.append("    def execute(self):\n        pass")
         lines.append("Base = Mid")
     lines.append("class Owner(Base):")
     for t in case["tunables"]:
@@ -144,7 +155,16 @@ def build_class(case, base=None):
         if t["subtable"]:
             kw += f", subtable={t['subtable']!r}"
         a = t["attr"]
-        if t["kind"].startswith("empty:"):
+        if t["kind"].startswith("hintfloat"):
+            hint = "float" if t["kind"] == "hintfloat" else "Sequence[float]"
+            ns["d_" + a] = value_of(t["kind"], 0)
+            if t["spelling"] == 0:
+                lines.append(f"    {a} = tunable[{hint}](d_{a}, {kw})")
+            elif t["spelling"] == 1:
+                lines.append(f"    {a}: ClassVar[tunable[{hint}]] = tunable(d_{a}, {kw})")
+            else:
+                lines.append(f"    {a}: {hint} = tunable(d_{a}, {kw})")
+        elif t["kind"].startswith("empty:"):
             et = t["kind"].split(":")[1]
             empty = "()" if t["as_tuple"] else "[]"
             if t["spelling"] == 0:
@@ -161,6 +181,8 @@ def build_class(case, base=None):
     lines.append("    def teleopPeriodic(self):\n        pass")
     # dont_inherit: this module's `from __future__ import annotations` must not turn the generated annotations into strings
     exec(compile("\n".join(lines), "<generated owner>", "exec", dont_inherit=True), ns)
+    if "Mid" in ns:
+        ns["Owner"]._vf_mid = ns["Mid"]
     return ns["Owner"]
 
 
@@ -177,6 +199,7 @@ class Channel:
         from wpimath.geometry import Rotation2d
         inst = ntcore.NetworkTableInstance.getDefault()
         base = kind.split(":")[1] + "[]" if kind.startswith("empty:") else kind
+        base = {"hintfloat": "float", "hintfloat[]": "float[]"}.get(base, base)
         self.base = base
         self.topic_generic = inst.getTopic(path)
         if base == "rot":
@@ -230,6 +253,7 @@ def run_case(acc, case):
     chans = {}
     reg = {}
     objs = []
+    objs_extra = []
     nt_seen_py = py_seen_nt = 0
     try:
         for ii, inst in enumerate(case["instances"]):
@@ -242,6 +266,14 @@ def run_case(acc, case):
         # ---- bind
         try:
             if case["owner"] == "direct":
+                mid = getattr(cls, "_vf_mid", None)
+                if mid is not None and case.get("base_instance_first"):
+                    # an object of the base class is bound first: what is remembered about the base must not hide the
+                    # tunables the derived class adds
+                    b = mid()
+                    setup_tunables(b, "b" + case["uid"])
+                    objs_extra.append(b)
+                    acc.ev("base-class-instance-bound-first")
                 for inst in case["instances"]:
                     o = cls()
                     setup_tunables(o, inst["name"], inst["prefix"]) if inst["prefix"] != "components" or stable_hash(inst["name"]) % 2 \
@@ -356,7 +388,7 @@ def run_case(acc, case):
     finally:
         for ch in chans.values():
             ch.close()
-        for o in objs:
+        for o in objs + objs_extra:
             for e in getattr(o, "_tunables", {}).values():
                 try:
                     e.close()
